@@ -38,6 +38,12 @@ CHECKS = {
              "the stated unambiguity condition and that a locked decoder equals that decoder forever after.",
         note="Dictionary represented by its contract (symbolic answer); std dictionary content not verified here. Backtrace stubbed.",
     ),
+    "C11": dict(
+        technique="Kani/CBMC contract harnesses: loop-free over every stored number for to_int (complete); concrete small lengths for multi-valued conversions and edits (bounded)",
+        text="Complete proof that binary integer values convert to every integer type exactly or fail; bounded checks of the multi-valued "
+             "conversions, truncate and extend_u16 that are listed separately and not counted as proved.",
+        note="Textual numbers and the remaining extend_* methods are uncovered. Error values are forgotten (never dropped) in harnesses.",
+    ),
     "C15": dict(
         technique="Verus contracts on the extracted lookup and indexing functions with the registry abstracted to a Map/Set view",
         text="Unbounded proof, for all 2^32 tags and any table content, that the lookup follows the stated precedence; the generated "
@@ -88,7 +94,6 @@ NOT_APPLICABLE = {
     "C04": "check not built yet in this session (planned in DESIGN.md section 7); not claimed until its check runs",
     "C05": "check not built yet in this session (planned in DESIGN.md section 7); not claimed until its check runs",
     "C09": "check not built yet in this session (planned in DESIGN.md section 7); not claimed until its check runs",
-    "C11": "check not built yet in this session (planned in DESIGN.md section 7); not claimed until its check runs",
     "C12": "check not built yet in this session (planned in DESIGN.md section 7); not claimed until its check runs",
     "C14": "check not built yet in this session (planned in DESIGN.md section 7); not claimed until its check runs",
     "C16": "check not built yet in this session (planned in DESIGN.md section 7); not claimed until its check runs",
